@@ -220,6 +220,21 @@ def known_id(known, fid):
 # ------------------------------------------------------------------ C01
 def mon_c01(hs, prev, op, ok, trace, cur, known):
     t = track_inst(hs, op, ok)
+    # ghost: coins the staking module delivered to the hub, by completion time of the unbonding entry
+    # (a batch undelegated at time T completes at T + chain unbonding time); slashing of unbonding
+    # entries switches the lower bound below off for the rest of the history
+    if prev is not None and t[0] == 'advance' and ok:
+        gone = {}
+        pu = [x for x in prev.all('unb') if x[0] == 'hub']
+        cu = [x for x in cur.all('unb') if x[0] == 'hub']
+        if len(cu) < len(pu):
+            tnow = now(cur)
+            dl_ = hs.setdefault('delivered', {})
+            for x in pu:
+                if int(x[3]) <= tnow:
+                    dl_[int(x[3])] = dl_.get(int(x[3]), 0) + int(x[2])
+    if t[0] == 'slash' and ok and len(t) > 4 and t[4] == '1':
+        hs['unb_slashed'] = True
     if hs.get('legacy') or not wired(cur, hs) or not in_envelope(cur) or oldwait(cur) != 0:
         return None
     h = hist(cur)
@@ -274,6 +289,18 @@ def mon_c01(hs, prev, op, ok, trace, cur, known):
                 val = sum(claim_val(b, s_, h[bid]) for (_, bid, b, s_) in waits(prev) if bid in newly)
                 if val > arrived:
                     return ('violation', 'batches %s released together: claims worth %d, only %d coins arrived' % (sorted(newly), val, arrived))
+                # batch by batch: if exactly the expected coins were delivered for a batch (nothing of its
+                # unbonding stake was slashed) its claims keep their value up to rounding dust
+                if not hs.get('unb_slashed'):
+                    env_ = prev.one('env')
+                    ut_ = int(env_[0]) if env_ else None
+                    for i in newly:
+                        exp_i = ph[i]['samt'] * ph[i]['swd'] // D + ph[i]['bamt'] * ph[i]['bwd'] // D
+                        got_i = h[i]['samt'] * h[i]['swd'] // D + h[i]['bamt'] * h[i]['bwd'] // D
+                        dlv = hs.get('delivered', {}).get(ph[i]['time'] + ut_) if ut_ is not None else None
+                        if dlv is not None and dlv == exp_i and got_i + 4 + ph[i]['samt'] // D + ph[i]['bamt'] // D < exp_i:
+                            return ('violation', 'batch %d: %d coins were delivered for it (nothing slashed), but at its final '
+                                    'withdraw rates its claims are worth only %d' % (i, dlv, got_i))
                 expected = sum(ph[i]['samt'] * ph[i]['swd'] // D + ph[i]['bamt'] * ph[i]['bwd'] // D for i in newly)
                 nclaims = sum(1 for w in waits(prev) if w[1] in newly)
                 if arrived == expected and expected - val > 4 * (len(newly) + nclaims) + 4:
@@ -745,8 +772,26 @@ def mon_c08(hs, prev, op, ok, trace, cur, known):
             return ('violation', 'batch %d undelegated %d, its requests at the recorded rates are worth %d' % (i, tot, want))
     elif und:
         return ('violation', 'undelegation without closing a batch in %r' % op)
-    # no coins leave the hub for a batch that is not released (covered by C01's exact-payment monitor);
-    # here: a payment happens only in a withdrawal
+    # time-lock: a withdrawal pays and removes only claims on batches that are released (which, by the
+    # release clause above, needs the unbonding period to have elapsed since their undelegation)
+    if ok and t[0] == 'hub' and len(t) > 2 and t[2] == 'withdraw' and oldwait(prev) == 0:
+        u = t[1]
+        left = set(w[1] for w in waits(cur) if w[0] == u)
+        allowed = 0
+        for (a_, bid, b_, s_) in waits(prev):
+            if a_ != u:
+                continue
+            e = h.get(bid)
+            if e and e['rel']:
+                allowed += claim_val(b_, s_, e)
+            elif bid not in left:
+                return ('violation', 'claim of %s on batch %d was removed by a withdrawal although the batch is not released '
+                        '(undelegated at %s, unbonding period %d, now %d)' % (u, bid, e['time'] if e else '-', unbonding, now(prev)))
+        paid = sum(a for x in tl if x[1] == 'bank' and x[2] == 'hub' for d, a in coins(x[4]) if d == 'usei')
+        if paid > allowed:
+            return ('violation', 'WithdrawUnbonded paid %s %d but its claims on released batches are worth %d: coins were paid '
+                    'for a batch whose unbonding period has not elapsed' % (u, paid, allowed))
+    # a payment happens only in a withdrawal
     for x in tl:
         if x[1] == 'bank' and x[2] == 'hub' and not (t[0] == 'hub' and t[2] == 'withdraw'):
             return ('violation', 'the hub paid coins in %r' % op)
@@ -823,8 +868,14 @@ def mon_c14(hs, prev, op, ok, trace, cur, known):
         return None   # a re-instantiated reward contract with stale holders is outside the property
     accrued = sum(int(x[1]) for x in cur.all('rw.accrued'))
     liquid = bank(cur, 'reward', denom)
-    if t[0] in ('inst_reward', 'reset') or (t[0] in ('reward', 'disp', 'hub') and len(t) > 2 and t[2] in ('config', 'swapdenom')):
+    if t[0] in ('inst_reward', 'reset') or (t[0] in ('disp', 'hub') and len(t) > 2 and t[2] in ('config', 'swapdenom')):
         hs['c14_ok'] = False
+    if t[0] == 'reward' and len(t) > 2 and t[2] in ('config', 'swapdenom'):
+        # a configuration message that changes nothing stored (the owner re-submits the same values) is
+        # no reason for the books to move; one that re-points the contract or changes the reward coin
+        # starts a new accounting period
+        if prev is None or prev.one('rw.cfg') != cur.one('rw.cfg'):
+            hs['c14_ok'] = False
     # the invariant is established from an instantiated, wired reward contract; it is tracked once it holds
     atom = sum(acc_atomics(gi, h) for h in hd.values())
     holds = atom <= prevbal * D and prevbal <= liquid and total == sum(h[0] for h in hd.values())
@@ -872,8 +923,33 @@ def mon_c14(hs, prev, op, ok, trace, cur, known):
     return None
 
 
+def _c15_inflow(hs, prev, op, ok, trace, cur, t):
+    """ghost: reward coins that reached the reward contract since the last effective index update
+    (balance differences plus what the contract itself paid out), independent of the contract's own
+    bookkeeping; None while the accounting period is not well defined"""
+    cfg = cur.one('rw.cfg')
+    if cfg is None:
+        hs.pop('c15_u', None)
+        return
+    denom = cfg[2]
+    if t[0] == 'inst_reward' and ok:
+        hs['c15_u'] = bank(cur, 'reward', denom)
+        return
+    if prev is None or prev.one('rw.cfg') is None or prev.one('rw.cfg')[2] != denom:
+        hs.pop('c15_u', None)
+        return
+    if 'c15_u' not in hs:
+        return
+    paid = 0
+    for x in trace_lines(trace):
+        if x[1] == 'bank' and x[2] == 'reward':
+            paid += sum(a for d, a in coins(x[4]) if d == denom)
+    hs['c15_u'] += bank(cur, 'reward', denom) - bank(prev, 'reward', denom) + paid
+
+
 def mon_c15(hs, prev, op, ok, trace, cur, known):
     t = track_inst(hs, op, ok)
+    _c15_inflow(hs, prev, op, ok, trace, cur, t)
     if prev is None or not ok:
         return None
     rs, prs = rstate(cur), rstate(prev)
@@ -906,6 +982,14 @@ def mon_c15(hs, prev, op, ok, trace, cur, known):
         delivered = rs[2] - prs[2]
         if dgi != delivered * D // prs[1]:
             return ('violation', 'index rose by %d for %d delivered over %d bSei (floor gives %d)' % (dgi, delivered, prs[1], delivered * D // prs[1]))
+    # the reward delivered per bSei, measured on the coins that actually arrived since the last update
+    u = hs.get('c15_u')
+    if u is not None and prs[1] > 0 and any(x[1] == 'wasm' and x[3] == 'reward' and x[4] == 'update_global_index' for x in trace_lines(trace)):
+        if u >= 0 and dgi != u * D // prs[1]:
+            hs['c15_u'] = 0
+            return ('violation', 'index rose by %d per bSei in %r, but %d reward coins arrived since the last update for %d bSei (floor gives %d): '
+                    'holders accrue something else than balance x reward delivered per bSei' % (dgi, op, u, prs[1], u * D // prs[1]))
+        hs['c15_u'] = 0
     return None
 
 
